@@ -61,12 +61,9 @@ func (p *Processor) OpenCDR(
 
 	// 32.298 5.1.5.1.5 Local Record Sequence Number
 	// TODO determine local record sequnece number
-	self.Lock()
-	self.LocalRecordSequenceNumber++
 	chfCdr.LocalRecordSequenceNumber = &cdrType.LocalSequenceNumber{
-		Value: int64(self.LocalRecordSequenceNumber),
+		Value: int64(self.NewLocalRecordSequenceNumber()),
 	}
-	self.Unlock()
 	// Skip Record Extensions: operator/manufacturer specific extensions
 
 	supiType := strings.Split(ue.Supi, "-")[0]
